@@ -490,7 +490,10 @@ int EGLPNUM_TYPENAME_ILLsimplex_retest_psolution (
 
 	if (phase == PRIMAL_PHASEII)
 	{
-		if (fbid < bid - PARAM_PRIMAL_RESOLVEGAP)
+		/* partial pricing only keeps dz current for the columns it scanned, the
+		 * optimality test and the reported reduced costs need all of them */
+		if (fbid < bid - PARAM_PRIMAL_RESOLVEGAP ||
+				(p != NULL && p->p_strategy == MULTI_PART_PRICING))
 		{
 			EGLPNUM_TYPENAME_ILLfct_compute_piz (lp);
 			EGLPNUM_TYPENAME_ILLfct_compute_dz (lp);
